@@ -39,13 +39,23 @@ pub struct FnSpec {
     pub fail_on: Vec<String>,
     /// the first `fail_first` invocations for each distinct argument fail (stateful across evaluations)
     pub fail_first: u32,
+    /// 0 = never; otherwise the function answers `cacheable() == false` once it has been invoked this many times in total
+    /// (any argument, across evaluations): a function may change its mind, and what it says at the time of a call counts
+    pub uncacheable_after: u32,
 }
 
 pub fn arg_key(v: &Value) -> String {
     show_value(v)
 }
 
+/// What a probe answers: `[name, argument]` -- except for the argument "none" (alone, or last in a list such as
+/// `[id, "none"]`), for which the answer is none (a successful result like any other).
 pub fn probe_result(name: &str, arg: &Value) -> Value {
+    let is_none_word = |v: &Value| matches!(v, Value::String(s) if s == "none");
+    let none_answer = is_none_word(arg) || matches!(arg, Value::Vec(items) if items.len() >= 2 && items.last().map(is_none_word).unwrap_or(false));
+    if none_answer {
+        return Value::None;
+    }
     Value::Vec(vec![Value::String(name.to_string()), arg.clone()])
 }
 
@@ -101,6 +111,12 @@ pub fn eval_plain(e: &Expr, facts: &Value) -> MRes {
     eval(e, &mut env)
 }
 
+/// one expression on its own with the given function table (fresh cache, no symbols)
+pub fn eval_plain_with(e: &Expr, facts: &Value, fns: &BTreeMap<String, FnSpec>) -> MRes {
+    let mut env = Env::new(facts, empty_symbols(), fns);
+    eval(e, &mut env)
+}
+
 pub fn eval(e: &Expr, env: &mut Env) -> MRes {
     use Expr as E;
     match e {
@@ -138,7 +154,9 @@ pub fn eval(e: &Expr, env: &mut Env) -> MRes {
                 None => return Err(MErr::UnknownUserFunction(name.clone())),
             };
             let key = (name.clone(), arg_key(&arg));
-            if spec.cacheable {
+            let total: u32 = env.counts.iter().filter(|((f, _), _)| f == name).map(|(_, c)| *c).sum();
+            let cacheable_now = spec.cacheable && (spec.uncacheable_after == 0 || total < spec.uncacheable_after);
+            if cacheable_now {
                 if let Some(v) = env.cache.get(&key) {
                     return Ok(v.clone());
                 }
@@ -151,7 +169,7 @@ pub fn eval(e: &Expr, env: &mut Env) -> MRes {
                 return Err(MErr::UserFunctionError(name.clone(), probe_error_message(name, &key.1)));
             }
             let res = probe_result(name, &arg);
-            if spec.cacheable {
+            if cacheable_now {
                 env.cache.insert(key, res.clone());
             }
             Ok(res)
